@@ -13,7 +13,7 @@ Python                                              Lean
 int(max(np.ceil((stop - start) / step), 0))         `arangeNum` (`ceilDivInt`, `Int.toNat`)
 for i, bs in enumerate(chunks[0]): blockstart = …   `arangeBlocks` (elem_count recurrence)
 chunk.arange(blockstart, blockstop, step, bs)       `chunkArange` (`np.arange` then trim to `bs`)
-linspace: blockstart += step*bs                     `linspaceBlocks` (numerators over `div`)
+linspace: one task per chunk with its global offset  `linspaceOffsets`, `linspaceBlock` (numerators over `div`)
 eye: row_start / col_start / local_k / branch       `eyeBlock`, `eyeTable`
 Import-free (linked into the native driver).
 -/
@@ -64,18 +64,24 @@ def linspaceDiv (num : Nat) (endpoint : Bool) : Nat :=
   let d := if endpoint then num - 1 else num
   if d = 0 then 1 else d
 
-/-- one `chunk.linspace` task: `(blockstart, blockstop, bs)`, both as numerators over `div`
-    (`step = range/div`, so `bs_space*step` has numerator `bs_space*range`) -/
-def linspaceBlocks (range : Int) (endpoint : Bool) : Int → List Nat → List ABlock
+/-- the task loop of `linspace` (after `fix: da.linspace computes every element from its global index`):
+    one `chunk.linspace_block` task per chunk with its global `offset` -/
+def linspaceOffsets : Nat → List Nat → List (Nat × Nat)
   | _, [] => []
-  | bstart, bs :: rest =>
-    let bsSpace : Nat := if endpoint then bs - 1 else bs
-    ⟨bstart, bstart + (bsSpace : Int) * range, bs⟩ :: linspaceBlocks range endpoint (bstart + range * (bs : Int)) rest
+  | off, bs :: rest => (off, bs) :: linspaceOffsets (off + bs) rest
 
-/-- `np.linspace(a, b, n, endpoint)` value `j`, as a numerator over `div * ldiv` where
-    `ldiv = linspaceDiv n endpoint`: `a + j*(b-a)/ldiv` -/
-def npLinspaceNum (endpoint : Bool) (blk : ABlock) (j : Nat) : Int :=
-  blk.start * (linspaceDiv blk.len endpoint : Int) + (j : Int) * (blk.stop - blk.start)
+/-- `chunk.linspace_block`: `arange(offset, offset + size) * step + start`, as numerators over `div`
+    (`a = start*div`, `range = stop - start`, `step = range/div`); the last element of the whole array is
+    pinned to `stop` (numerator `b = stop*div`) when `endpoint and num > 1` -/
+def linspaceBlock (a b range : Int) (num : Nat) (endpoint : Bool) (off size : Nat) : List Int :=
+  (List.range size).map (fun (j : Nat) =>
+    if endpoint ∧ 1 < num ∧ off + j + 1 = num then b else a + ((off + j : Nat) : Int) * range)
+
+def linspaceValues (a b range : Int) (num : Nat) (endpoint : Bool) (cs : List Nat) : List (List Int) :=
+  (linspaceOffsets 0 cs).map (fun p => linspaceBlock a b range num endpoint p.1 p.2)
+
+/-- NumPy: `arange(0, num) * step + start`, `y[-1] = stop` -/
+def linspaceSpec (a b range : Int) (num : Nat) (endpoint : Bool) : List Int := linspaceBlock a b range num endpoint 0 num
 
 /-! ### eye (after `fix: da.eye declares the chunks it builds`) -/
 
